@@ -1,8 +1,11 @@
 (* C13 -- State grids are well formed and refinement nests them.  Only statements; proofs in Proofs/C13_Grid.v.
    Model: Model/Grid.v (rpylib/grid/spatial.py CTMCGrid, create_from_fixed_nb_of_points, CTMCCredit, refine;
-   rpylib/grid/grid.py Coordinates).  `mid` stands for grid.middle: the theorems hold for every function
-   that returns a point strictly inside a gap and halves the gap next to the origin (the arithmetic mean
-   `amid` of CTMCGrid, the root-found point of CTMCGridProbabilityStep). *)
+   rpylib/grid/grid.py Coordinates).  `mid` stands for grid.middle.  The refinement theorems hold for every STATELESS
+   function that returns a point strictly inside a gap and halves the gap next to the origin; the only proved instance is the
+   arithmetic mean `amid` of CTMCGrid (C13_amid_ok).  CTMCGridProbabilityStep.middle reads grid.h (so it is a different
+   function at every level) and does NOT satisfy mid_left0/mid_right0 for arbitrary arguments: for it only the one-step
+   theorems C13_refine_nests / C13_refine_admissible_axis apply (hypotheses on the axis being refined), level by level;
+   that its root lies strictly inside the bracket is checked by the oracle, not proved. *)
 From Coq Require Import ZArith QArith List.
 From RV Require Import Base.QB Model.Grid Proofs.C13_Grid.
 Import ListNotations.
@@ -27,11 +30,10 @@ Theorem C13_fixed_axis : forall h nb, 0 < h -> (2 <= nb)%nat ->
   /\ headq xs == - (inject_Z (Z.of_nat (nb / 2)) * h) /\ lastq xs == inject_Z (Z.of_nat (nb / 2)) * h.
 Proof. exact fixed_admissible. Qed.
 
-(* CTMCUniformGrid (repaired: ValueError unless int(|l|/h) >= 2 and int(r/h) >= 1; linspace as its mathematical
-   sequence): whenever it returns an axis, the axis is admissible, starts at the left truncation bound and ends at the
-   right truncation bound (or at h when int(r/h) = 1: the reported truncation is then axis[-1] = h) *)
+(* CTMCUniformGrid (repaired: ValueError unless int(|l|/h) >= 2 and int(r/h) >= 2; linspace as its mathematical
+   sequence): whenever it returns an axis, the axis is admissible and its end points are the two truncation bounds *)
 Theorem C13_uniform_admissible : forall l h r xs o, 0 < h -> l < 0 -> 0 < r -> uniform_axis l h r = Some (xs, o) ->
-  admissible xs o h /\ headq xs == l /\ (lastq xs == r \/ lastq xs == h).
+  admissible xs o h /\ headq xs == l /\ lastq xs == r.
 Proof. exact uniform_admissible. Qed.
 
 (* CTMCCredit (repaired: raises unless every axis is strictly increasing): whenever it returns a grid, every
@@ -69,6 +71,13 @@ Section AnyMiddle.
           /\ nthq xs i < nthq (refine_axis mid xs) (2 * i + 1) < nthq xs (i + 1))
     /\ headq (refine_axis mid xs) = headq xs /\ lastq (refine_axis mid xs) = lastq xs.
   Proof. exact (refine_nests mid mid_between). Qed.
+
+  (* one refinement, hypotheses on the axis at hand only: covers a middle that depends on the grid's state (probability-step
+     grid: middle(-h,0) = -grid.h/2, middle(0,h) = grid.h/2 with the h of the level being refined) *)
+  Theorem C13_refine_admissible_axis : forall xs o h, admissible xs o h ->
+    mid (nthq xs (o - 1)) (nthq xs o) == - (h / 2) -> mid (nthq xs o) (nthq xs (o + 1)) == h / 2 ->
+    admissible (refine_axis mid xs) (2 * o) (h / 2).
+  Proof. exact (refine_admissible_axis mid mid_between). Qed.
 
   Theorem C13_refine_admissible : forall g, grid_wf g -> grid_wf (refine mid g).
   Proof. exact (refine_grid_wf mid mid_between mid_left0 mid_right0). Qed.
@@ -120,6 +129,7 @@ Print Assumptions C13_credit_admissible.
 Print Assumptions C13_credit_guards_suffice.
 Print Assumptions C13_refine_loop.
 Print Assumptions C13_refine_nests.
+Print Assumptions C13_refine_admissible_axis.
 Print Assumptions C13_refine_admissible.
 Print Assumptions C13_refine_n.
 Print Assumptions C13_refine_n_axis.
